@@ -67,6 +67,7 @@ type pRun struct {
 	lateGate  chan struct{} // when non-nil, "ldrain" receivers start counting their delay when it is closed
 	lateBy    time.Duration // delay of "ldrain" receivers (default 25 ms)
 	noSnap    bool          // no visibility query at nil acks (runs that measure latencies / counts)
+	snapMax   int           // visibility queries at the first snapMax nil acks (default 6)
 	flushWait time.Duration // how long flush() waits for Flush to return (default 30 s)
 }
 
@@ -348,7 +349,11 @@ func (r *pRun) gotAck(id int, ok bool) {
 	if _, seen := r.ansAt[id]; !seen {
 		r.ansAt[id] = time.Since(r.t0)
 	}
-	snap := ok && len(r.snapAt) < 6 && !r.noSnap
+	snapMax := 6
+	if r.snapMax > 0 {
+		snapMax = r.snapMax
+	}
+	snap := ok && len(r.snapAt) < snapMax && !r.noSnap
 	r.mu.Unlock()
 	if snap {
 		full, _ := r.queryVisible(r.eng)
@@ -381,7 +386,9 @@ func (r *pRun) flush(ctx context.Context) (int, error) {
 		r.retAcc[id] = acc
 		r.retSeq[id] = r.noteSeq()
 		r.mu.Unlock()
-		if acc {
+		// a Flush that returned nil claims durability of everything before it, whether or not a request of
+		// its own was seen entering the pipeline
+		if acc || err == nil {
 			r.noteAccepted(id)
 			r.gotAck(id, err == nil)
 		}
